@@ -21,6 +21,11 @@ pub fn parse(bytes: &[u8]) -> Ran<Result<Vec<(String, Vec<String>)>, String>> {
 ///                     and ending before a backslash-newline; a target written `name:` carries its colon.
 /// Returns None for anything outside this grammar (then only totality is required of n2).
 pub fn reference_depfile(b: &[u8]) -> Option<Vec<(String, Vec<String>)>> {
+    // CR and tab are outside what the property describes (n2 reads CRLF depfiles only when built with its
+    // `crlf` feature): no opinion, totality only
+    if b.iter().any(|&c| c == b'\r' || c == b'\t') {
+        return None;
+    }
     let mut i = 0;
     let n = b.len();
     let cont = |i: usize| i + 1 < n && b[i] == b'\\' && b[i + 1] == b'\n';
@@ -141,8 +146,8 @@ pub struct C15;
 impl C15 {
     fn structured(&self, case: &Case, env: &Env) -> CaseOut {
         let mut t = Tape::new(&case.main);
-        let tnames = ["out.o", "build/browse.o", "C:/x/out.obj", "a\\b.o", "\u{e9}.o", "o"];
-        let pnames = ["a.h", "src/b.cc", "C:/inc/w.h", "dir\\win.h", "\u{20ac}.h", "x", "../up.h", "./a.h", "a:b"];
+        let tnames = ["out.o", "build/browse.o", "C:/x/out.obj", "a\\b.o", "\u{e9}.o", "o", "\u{4f60}.o"];
+        let pnames = ["a.h", "src/b.cc", "C:/inc/w.h", "dir\\win.h", "\u{20ac}.h", "x", "../up.h", "./a.h", "a:b", "voil\u{e0}.h", "\u{c5}ngstrom.h", "\u{4f60}\u{597d}.h"];
         let ne = 1 + t.weighted(&[6, 3, 2, 1]);
         let mut entries: Vec<(String, Vec<String>)> = vec![];
         let mut text = String::new();
@@ -367,6 +372,70 @@ impl C15 {
     }
 }
 
+/// Symbols of the second enumeration: what compilers on other platforms and in other locales put into depfiles
+/// (CR, tab, names with bytes 0x85 / 0xA0 inside a multi-byte character, and those bytes alone).
+const WIDE: [&[u8]; 9] = [b"a", b" ", b":", b"\\", b"\n", b"\r", b"\t", b"\xc3\xa0", b"\xc2\x85"];
+
+impl C15 {
+    pub fn enum_wide_unit(&self, u: u64, maxsyms: usize, env: &Env) -> CaseOut {
+        // unit = first two symbols (81 units); unit 0 also covers the strings of fewer than two symbols
+        let mut out = CaseOut::default();
+        let n = WIDE.len() as u64;
+        let mut accepted = 0u64;
+        let mut run = |s: &[u8], out: &mut CaseOut| -> bool {
+            out.evals += 1;
+            if env.replaying && !survives(|| {
+                let _ = parse(s);
+            }) {
+                out.viols.push(Viol::new("C15", "process-death", format!("parsing depfile {:?} kills the process", String::from_utf8_lossy(s))));
+                out.replay = Some(json!({"depfile_bytes": s}));
+                return false;
+            }
+            match totality_one(s) {
+                Ok(ok) => {
+                    if ok {
+                        accepted += 1;
+                    }
+                    true
+                }
+                Err((k, m)) => {
+                    out.viols.push(Viol::new("C15", k, m));
+                    out.replay = Some(json!({"depfile_bytes": s}));
+                    false
+                }
+            }
+        };
+        if u == 0 {
+            for k in 0..n {
+                if !run(WIDE[k as usize], &mut out) {
+                    return out;
+                }
+            }
+        }
+        let mut prefix: Vec<u8> = vec![];
+        prefix.extend_from_slice(WIDE[(u % n) as usize]);
+        prefix.extend_from_slice(WIDE[((u / n) % n) as usize]);
+        for l in 0..=(maxsyms - 2) {
+            for k in 0..n.pow(l as u32) {
+                let mut s = prefix.clone();
+                let mut y = k;
+                for _ in 0..l {
+                    s.extend_from_slice(WIDE[(y % n) as usize]);
+                    y /= n;
+                }
+                if !run(&s, &mut out) {
+                    return out;
+                }
+            }
+        }
+        out.nontrivial = true;
+        out.fp = 1_000_000 + u;
+        out.extra_distinct = accepted.saturating_sub(1);
+        out.desc = json!({"prefix": String::from_utf8_lossy(&prefix), "inputs": out.evals, "accepted": accepted});
+        out
+    }
+}
+
 impl Check for C15 {
     fn id(&self) -> &'static str {
         "C15"
@@ -385,10 +454,14 @@ impl Check for C15 {
             Part { name: "structured", kind: PartKind::Random { cases: tier.pick(600_000, 6_000_000), main: 120, ops: 0, oplen: 0, sched: 0 } },
             Part { name: "malformed", kind: PartKind::Random { cases: tier.pick(200_000, 2_000_000), main: 12, ops: 0, oplen: 0, sched: 0 } },
             Part { name: "enum", kind: PartKind::Enum { units: 125 } },
+            Part { name: "enum-wide", kind: PartKind::Enum { units: 81 } },
             Part { name: "bb-depfile", kind: PartKind::Random { cases: tier.pick(48, 600), main: 8, ops: 0, oplen: 0, sched: 0 } },
         ]
     }
-    fn run_unit(&mut self, _part: &str, u: u64, env: &mut Env) -> CaseOut {
+    fn run_unit(&mut self, part: &str, u: u64, env: &mut Env) -> CaseOut {
+        if part == "enum-wide" {
+            return self.enum_wide_unit(u, env.tier.pick(6, 7), env);
+        }
         self.enum_unit(u, env.tier.pick(9, 11), env)
     }
     fn run_random(&mut self, part: &str, case: &Case, env: &mut Env) -> CaseOut {
@@ -399,13 +472,14 @@ impl Check for C15 {
         }
     }
     fn run_replay(&mut self, _part: &str, replay: &Value, _env: &mut Env) -> CaseOut {
-        let text = match replay["raw_bytes"].as_array() {
-            Some(a) => String::from_utf8_lossy(&a.iter().map(|x| x.as_u64().unwrap_or(0) as u8).collect::<Vec<u8>>()).into_owned(),
-            None => replay["depfile"].as_str().unwrap_or("").to_string(),
+        let bytes: Vec<u8> = match replay["depfile_bytes"].as_array().or(replay["raw_bytes"].as_array()) {
+            Some(a) => a.iter().map(|x| x.as_u64().unwrap_or(0) as u8).collect(),
+            None => replay["depfile"].as_str().unwrap_or("").as_bytes().to_vec(),
         };
+        let text = String::from_utf8_lossy(&bytes).into_owned();
         let mut out = CaseOut { evals: 1, ..Default::default() };
         if !survives(|| {
-            let _ = parse(text.as_bytes());
+            let _ = parse(&bytes);
         }) {
             out.viols.push(Viol::new("C15", "process-death", format!("parsing depfile {:?} kills the process", text)));
             return out;
@@ -422,7 +496,7 @@ impl Check for C15 {
                 }
                 _ => out.viols.push(Viol::new("C15", "pinned-failed", "pinned depfile did not parse".to_string())),
             }
-        } else if let Err((k, m)) = totality_one(text.as_bytes()) {
+        } else if let Err((k, m)) = totality_one(&bytes) {
             out.viols.push(Viol::new("C15", k, m));
         }
         out.desc = json!({"depfile": text});
